@@ -854,9 +854,7 @@ func (p *Parser) parseIfStmt() *ast.IfStmt {
 		return nil
 	}
 
-	p.nextToken() // skip ")"
-
-	stmt.Consequence = p.parseBlockStmt()
+	stmt.Consequence = p.parseBody()
 
 	for p.peekTokenIs(token.ELSE_IF) {
 		alt := p.parseElseIfStmt()
@@ -897,20 +895,19 @@ func (p *Parser) parseElseIfStmt() *ast.ElseIfStmt {
 		return nil
 	}
 
-	p.nextToken() // skip ")"
+	tok := p.peekToken
 
 	return &ast.ElseIfStmt{
-		Token:       p.curToken,
+		Token:       tok,
 		Condition:   condition,
-		Consequence: p.parseBlockStmt(),
+		Consequence: p.parseBody(),
 	}
 }
 
 func (p *Parser) parseAlternativeBlock() *ast.BlockStmt {
 	p.nextToken() // move to "@else"
-	p.nextToken() // skip "@else"
 
-	alt := p.parseBlockStmt()
+	alt := p.parseBody()
 
 	if p.peekTokenIs(token.ELSE_IF) {
 		p.newError(p.peekToken.ErrorLine(), fail.ErrElseifCannotFollowElse)
@@ -955,13 +952,11 @@ func (p *Parser) parseForStmt() *ast.ForStmt {
 		return nil
 	}
 
-	p.nextToken() // skip ")"
-
-	stmt.Block = p.parseBlockStmt()
+	stmt.Block = p.parseBody()
 
 	if p.peekTokenIs(token.ELSE) {
-		p.nextToken() // skip "@else"
-		stmt.Alternative = p.parseBlockStmt()
+		p.nextToken() // move to "@else"
+		stmt.Alternative = p.parseBody()
 	}
 
 	if !p.expectPeek(token.END) { // move to "@end"
@@ -997,13 +992,11 @@ func (p *Parser) parseEachStmt() *ast.EachStmt {
 		return nil
 	}
 
-	p.nextToken() // skip ")"
-
-	stmt.Block = p.parseBlockStmt()
+	stmt.Block = p.parseBody()
 
 	if p.peekTokenIs(token.ELSE) {
-		p.nextToken() // skip "@else"
-		stmt.Alternative = p.parseBlockStmt()
+		p.nextToken() // move to "@else"
+		stmt.Alternative = p.parseBody()
 	}
 
 	if !p.expectPeek(token.END) { // move to "@end"
@@ -1037,6 +1030,18 @@ func (p *Parser) parseBlockStmt() *ast.BlockStmt {
 	}
 
 	return stmt
+}
+
+// parseBody parses the block that follows the current token. When the
+// next token already closes the block, the body is empty
+func (p *Parser) parseBody() *ast.BlockStmt {
+	if p.peekTokenIs(token.ELSE, token.ELSE_IF, token.END) {
+		return &ast.BlockStmt{Token: p.peekToken}
+	}
+
+	p.nextToken() // move to the first token of the body
+
+	return p.parseBlockStmt()
 }
 
 func (p *Parser) parseExpressionStmt() ast.Statement {
